@@ -223,6 +223,8 @@ impl Property for C03 {
             let adv = if s.chance(1, 4) { [1u64, 999, 1000, 1500, 10_000, 100_000][s.idx(6)] } else { 0 };
             (c, pa, pb, adv)
         });
+        let stall_at: Option<usize> = if src.chance(1, 3) && !cmds.is_empty() { Some(src.idx(cmds.len())) } else { None };
+        if stall_at.is_some() { rep.fault("shard_stalled"); }
         let seed = src.u64_any();
         let trace = ctx.trace;
         let mut via: BTreeMap<Vec<u8>, std::collections::BTreeSet<&'static str>> = BTreeMap::new();
@@ -244,7 +246,10 @@ impl Property for C03 {
                 if *adv > 0 { clock.advance(*adv); if trace { log.push(format!("clock +{} ms", adv)); } }
                 let nm = String::from_utf8_lossy(&c[0]).to_uppercase();
                 let ra = send(&a, c, *pa).await;
+                // a slow node: one shard of the N-shard server is held up before it handles its next message
+                if stall_at == Some(i) { redis_sim::production::verif_hooks::stall::set_ms(1500); }
                 let rb = send(&b, c, *pb).await;
+                let _ = redis_sim::production::verif_hooks::stall::take_ms();
                 if trace { log.push(format!("#{} {}   1-shard[{}] -> {}   {}-shard[{}] -> {}", i, show_cmd(c), pa.name(), ra.show(), n, pb.name(), rb.show())); }
                 let (na, nb) = (norm_unordered(&nm, &ra), norm_unordered(&nm, &rb));
                 if matches!(nm.as_str(), "RPOPLPUSH" | "LMOVE" | "RENAME" | "RENAMENX" | "MSETNX") && c.len() > 2 && c[1..].iter().any(|x| x != &c[1]) { two_key_seen = true; }
